@@ -2,7 +2,12 @@
 
 package commit
 
-import "io"
+import (
+	"errors"
+	"io"
+	"runtime"
+	"strings"
+)
 
 func init() {
 	vndRegister("VerifC05BufferCodec", VerifC05BufferCodec)
@@ -11,28 +16,95 @@ func init() {
 	vndRegister("VerifC05SwapDecoded", VerifC05SwapDecoded)
 }
 
-// VBuf is an in-memory io.Writer / io.Reader / io.ByteReader used by the harnesses.
+// VBuf is an in-memory io.Writer / io.Reader / io.ByteReader used by the harnesses, with fault
+// injection for writes and truncation for reads.
 type VBuf struct {
 	Data []byte
 	rpos int
+	// writes: with Inject, the FailAt-th write call of phase FailPhase fails (phase 0: everything
+	// written through the snapshot's own encoder, phase 1: the raw copy of the recorded log), and
+	// every later write too unless FailOnce. Phases make a fault position meaningful both for the
+	// s2 model and for the real s2, whose numbers of write calls differ.
+	Inject       bool
+	FailPhase    int
+	FailAt       int
+	FailOnce     bool
+	Failed       bool
+	Writes       int
+	phaseWrites  [2]int
+	tripped      bool
+	OnFirstWrite func()
+	// reads: with HasCut only the first Cut bytes exist (a file truncated by a crash)
+	HasCut bool
+	Cut    int
+}
+
+var ErrVBuf = errors.New("verif: destination write failed")
+
+// VInCopy is set by the io.Copy model while it runs (symbolic executor only).
+var VInCopy bool
+
+// vInCopy tells whether the current Write comes from the raw copy of the recorded log.
+func vInCopy() bool {
+	if vndSymbolic() {
+		return VInCopy
+	}
+	var pcs [32]uintptr
+	n := runtime.Callers(2, pcs[:])
+	frames := runtime.CallersFrames(pcs[:n])
+	for {
+		f, more := frames.Next()
+		if strings.HasPrefix(f.Function, "io.Copy") || strings.HasPrefix(f.Function, "io.copyBuffer") || strings.Contains(f.Function, "commit.(*Log).Copy") {
+			return true
+		}
+		if !more {
+			return false
+		}
+	}
 }
 
 func (b *VBuf) Write(p []byte) (int, error) {
+	i := b.Writes
+	b.Writes++
+	if i == 0 && b.OnFirstWrite != nil {
+		b.OnFirstWrite()
+	}
+	if b.Inject {
+		ph := 0
+		if vInCopy() {
+			ph = 1
+		}
+		j := b.phaseWrites[ph]
+		b.phaseWrites[ph]++
+		hit := ph == b.FailPhase && j == b.FailAt
+		if hit || (b.tripped && !b.FailOnce) {
+			b.tripped = true
+			b.Failed = true
+			return 0, ErrVBuf
+		}
+	}
 	b.Data = append(b.Data, p...)
 	return len(p), nil
 }
 
+func (b *VBuf) size() int {
+	if b.HasCut && b.Cut < len(b.Data) {
+		return b.Cut
+	}
+	return len(b.Data)
+}
+
 func (b *VBuf) Read(p []byte) (int, error) {
-	if b.rpos >= len(b.Data) {
+	if b.rpos >= b.size() {
 		return 0, io.EOF
 	}
-	n := copy(p, b.Data[b.rpos:])
+	n := copy(p, b.Data[b.rpos:b.size()])
 	b.rpos += n
 	return n, nil
 }
 
 func (b *VBuf) ReadByte() (byte, error) {
-	if b.rpos >= len(b.Data) {
+	if b.rpos >= b.size() {
 		return 0, io.EOF
 	}
 	c := b.Data[b.rpos]
